@@ -212,6 +212,7 @@ def rule_a(ctx: Context, R: Reporter, cc: ClassInfo, v: FuncInfo):
     # overlap and range of boundary indices
     overlap = False
     rng = {"periodic": False, "reflective": False}
+    rng_foreign: Dict[str, list] = {}
     for (nd, c, facts) in sites:
         txt = [norm_text(a) for (a, p) in facts]
         flow = flow_of(v.node)
@@ -240,12 +241,30 @@ def rule_a(ctx: Context, R: Reporter, cc: ClassInfo, v: FuncInfo):
                                                                                              or (isinstance(c.ops[0], ast.LtE) and const_value(c.left) == 0 and isinstance(c.comparators[0], ast.Name) and c.comparators[0].id == lv))]
                     highs = [c for c in conj if isinstance(c, ast.Compare) and len(c.ops) == 1 and ((isinstance(c.ops[0], ast.Lt) and isinstance(c.left, ast.Name) and c.left.id == lv and norm_text(c.comparators[0]) == "self.n_dim")
                                                                                               or (isinstance(c.ops[0], ast.Gt) and norm_text(c.left) == "self.n_dim" and isinstance(c.comparators[0], ast.Name) and c.comparators[0].id == lv))]
+                    # the check itself must not be conditional on anything but the presence of this very field
+                    def _present(b, q, fld=fld):
+                        return is_none_test(b) is not None and _field(b, fld) and not any(_field(b, o) for o in ("periodic", "reflective") if o != fld) and ((is_none_test(b)[1] is False) == q)
+
+                    def _background(b, q):
+                        if _present(b, q):
+                            return True
+                        # a disjunction one of whose disjuncts is "this field is given" holds whenever the check has to run
+                        if isinstance(b, ast.BoolOp) and ((isinstance(b.op, ast.And) and not q) or (isinstance(b.op, ast.Or) and q)):
+                            return any(_present(x, q) for x in b.values)
+                        return False
+
+                    foreign = [(b, q) for (b, q) in facts if b is not a and not _background(b, q)]
                     if has_int and (has_rng or (lows and highs)):
-                        rng[fld] = True
+                        if foreign:
+                            rng_foreign[fld] = [(unparse(b)[:40], q) for (b, q) in foreign]
+                        else:
+                            rng[fld] = True
     R.check("C18.a", "overlapping periodic/reflective indices are rejected", overlap, v, v.node, msg=f"{v.short}: no error site for a non-empty intersection of periodic and reflective", key="constraint:overlap")
     for fld, ok in rng.items():
         R.check("C18.a", f"{fld} indices outside [0, n_dim) or non-integer are rejected", ok, v, v.node,
-                msg=f"{v.short}: no error site guarded by `not all(isinstance(i, int) and 0 <= i < self.n_dim for i in self.{fld})`", key=f"constraint:range:{fld}")
+                msg=f"{v.short}: no error site guarded by `not all(isinstance(i, int) and 0 <= i < self.n_dim for i in self.{fld})`"
+                    + (f" alone: the only such site is additionally conditional on {rng_foreign[fld]}, so an invalid `{fld}` list is accepted whenever that condition fails" if fld in rng_foreign else ""),
+                key=f"constraint:range:{fld}")
     # the collected errors are raised on every path
     flow = flow_of(v.node)
     cfg = flow.cfg
